@@ -7,9 +7,9 @@ namespace EaselModel.Buffer
 theorem R.of_keepA' {P : Nat} {a a' : AState} {s s' : Sess} (r : R P a s)
     (wf : WF s'.b) (pg : PG s'.b) (k : KeepA s.b s'.b) (aok : AnchOK s'.b)
     (hsrc : a'.src = a.src) (hanch : a'.anchor = a.anchor) (hnanch : a'.nanchor = a.nanchor)
-    (hcur : s'.b.base + s'.b.pos = a'.cur) (hA : ∀ A, a.anchor = some A → A ≤ a'.cur) (hle : a'.cur ≤ a'.src.length)
+    (hcur : s'.b.base + s'.b.pos = a'.cur) (hA : ∀ A, a.anchor = some A → A ≤ a'.cur)
     (hlp : s'.lastp = none) (hlp' : a'.lastp = none) : R P a' s' := by
-  refine ⟨wf, pg, aok, r.nfa.keepA k, by rw [k.src, r.src, hsrc], hcur, hle, by rw [k.ps]; exact r.ps, ?_, ?_, ?_, ?_, by rw [hlp, hlp']; rfl, ?_⟩
+  refine ⟨wf, pg, aok, r.nfa.keepA k, by rw [k.src, r.src, hsrc], hcur, by rw [k.ps]; exact r.ps, ?_, ?_, ?_, ?_, by rw [hlp, hlp']; rfl, ?_⟩
   · rw [k.hasfp, k.mode]; exact r.modefp
   · intro hf
     rw [k.hasfp] at hf
@@ -55,7 +55,7 @@ theorem R.loaded_ge {P : Nat} {a : AState} {s : Sess} (r : R P a s) :
   · rw [g] at hs; simp only [List.length_nil] at hs; omega
 
 theorem set_tail {P : Nat} {a : AState} {s : Sess} (r : R P a s) (k : Nat) (b1 : Buf) (c : Nat)
-    (w1 : WF b1) (k1 : Keep s.b b1) (hcur1 : b1.base + b1.pos = c) (hcle : c ≤ a.src.length)
+    (w1 : WF b1) (k1 : Keep s.b b1) (hcur1 : b1.base + b1.pos = c)
     (hcA : ∀ A, a.anchor = some A → A ≤ c)
     (e : set s.b s.lastp k = (({ st := if okOrEof (refill b1 0).1 then .ok else (refill b1 0).1 } : Out), (refill b1 0).2))
     (es : specStep a (.set k) = (⟨.ok, [], c⟩, { a with cur := c, lastp := none })) :
@@ -74,7 +74,7 @@ theorem set_tail {P : Nat} {a : AState} {s : Sess} (r : R P a s) (k : Nat) (b1 :
     rw [ho, hb, hoff]
   · refine r.of_keepA' (s' := (s.step (.set k)).2) (a' := { a with cur := c, lastp := none })
       (by rw [hb]; exact hr.wf) ?_ (by rw [hb]; exact (k1.trans hk).toKeepA) (by rw [hb]; exact r.aok.keep (k1.trans hk))
-      rfl rfl rfl (by rw [hb]; exact hoff) hcA hcle ?_ rfl
+      rfl rfl rfl (by rw [hb]; exact hoff) hcA ?_ rfl
     · rw [hb]
       rcases hr.guarantee (Nat.zero_le _) with g | g
       · left; omega
@@ -85,11 +85,10 @@ theorem sim_set (P : Nat) (k : Nat) : SimStep P (.set k) := by
   intro a s r hv
   have hp := r.wf.hpos
   have hld := r.loaded_ge
-  have hin := r.inb
   cases hl : s.lastp with
   | none =>
     have hal : a.lastp = none := by rw [← r.lastp, hl]; rfl
-    refine set_tail r k s.b a.cur r.wf (Keep.refl _) r.cur hin (fun A hA => (r.aanch A hA).1) (by rw [hl]; rfl) ?_
+    refine set_tail r k s.b a.cur r.wf (Keep.refl _) r.cur (fun A hA => (r.aanch A hA).1) (by rw [hl]; rfl) ?_
     unfold specStep; simp only [hal]
   | some i =>
     have hal : a.lastp = some (s.b.base + i) := by rw [← r.lastp, hl]; rfl
@@ -97,7 +96,7 @@ theorem sim_set (P : Nat) (k : Nat) : SimStep P (.set k) := by
     obtain ⟨l1, l2⟩ := r.lastp_le _ hal
     have hik : i + k ≤ s.b.n := by have := r.cur; omega
     have hanc := r.anchor_le i l2
-    refine set_tail r k { s.b with pos := i + k } (s.b.base + i + k) ?_ (setpos_keep s.b _) ?_ (by omega) ?_ (by rw [hl]; rfl) ?_
+    refine set_tail r k { s.b with pos := i + k } (s.b.base + i + k) ?_ (setpos_keep s.b _) ?_ ?_ (by rw [hl]; rfl) ?_
     · exact ⟨r.wf.hwin, hik, fun x hx => Nat.le_trans (hanc x hx) (Nat.le_add_right _ _), r.wf.hps, r.wf.heof, r.wf.hnofp⟩
     · show s.b.base + (i + k) = _; omega
     · intro A hA; have := l2 A hA; omega
